@@ -517,7 +517,9 @@ func keyedMemberPair(r *gen.RNG, prof gen.Profile, keys []string) (any, any) {
 				t[i] = walk(t[i])
 			}
 			if r.Chance(0.2) {
-				t = append(t, gen.Scalar(r, prof))
+				for k := r.Range(1, 3); k > 0; k-- { // one to three new values in one nested array
+					t = append(t, gen.Scalar(r, prof))
+				}
 			}
 			if r.Chance(0.15) && len(t) > 0 {
 				j := r.Intn(len(t))
